@@ -710,7 +710,9 @@ bool File::lock(bool block /* = true */)
 // Unlock the file
 bool File::unlock()
 {
-	flush();
+	// Buffered data that cannot be written out is a failure of the caller's
+	// write, not something to ignore
+	bool flushed = flush();
 
 #ifndef _WIN32
 	struct flock fl;
@@ -757,7 +759,7 @@ bool File::unlock()
 
 	locked = false;
 
-	return valid;
+	return valid && flushed;
 }
 
 // Flush the buffered stream to background storage and discard unread fetched data
